@@ -749,8 +749,8 @@ def _check_api(route, stmts, raw, order, dump, outcomes, expected, fail, modelle
     for ai, (f, b) in sorted(links.items()):
         a = stmts[ai]
         want = pred[ai]
-        if f == want and b == want:
-            continue
+        if (f == want and b == want) or (f == expected[ai] and b == expected[ai]):
+            continue            # what the open findings predict — or exactly what the property states
         first = sorted((f ^ want) | (b ^ want))[0]
         what = '%s route: %s links %s, loading the same rows links %s (first difference: %s / %s); %s' % (
             route, a['rel'], sorted(f | b), sorted(expected[ai]), _show(stmts, first[0]), _show(stmts, first[1]), context())
